@@ -66,7 +66,7 @@ def _analyses():
             "(value, tangent) order and zero tangents of the right space (A13.zero/A2.tuple).",
         ),
         "C03": (
-            [kc.backward_pass, km.toposort, kc.dispatch, kt.wrapper, kc.raise_discipline],
+            [kc.backward_pass, km.toposort, kc.dispatch, kt.wrapper, kc.raise_discipline, ka.arraybox_table],
             "Chain rule over arbitrary graphs: path property of one backward_pass iteration (node.vjp exactly once, one add_outgrads per parent edge keyed by that parent, "
             "accumulating into the current entry), alignment of parents/argnums/rules in the wrapper and in all dispatch branches (A13.align), node constructor slots (A2.slot).",
         ),
@@ -81,13 +81,13 @@ def _analyses():
             "zeros of the argument's / output's space on independent paths (A13.zero), one Box and one VSpace per differentiable type (A1.types), container layout (A2.layout).",
         ),
         "C06": (
-            [kt.trace_fn, kt.wrapper, kt.notrace_wrapper, kt.find_top, kt.new_trace, km.wrap_namespace, ka.arraybox_table, ka.operators, ka.wrapper_signatures, kc.inplace_sites],
+            [kt.trace_fn, kt.wrapper, kt.notrace_wrapper, kt.find_top, kt.new_trace, km.wrap_namespace, ka.arraybox_table, a1.methods, ka.operators, ka.wrapper_signatures, kc.inplace_sites],
             "Value transparency: trace() returns the unboxed value; the wrapper calls the raw function unchanged on plain inputs and unboxes exactly one level; ArrayBox's "
             "operator/method/property table follows the Python data model (A14); operators return primal/aux untouched (A15); re-implemented wrappers keep NumPy's optional "
             "parameter names, positions and defaults (A6.wrapsig); no in-place write to a parameter (A9.inplace).",
         ),
         "C07": (
-            [a8_taint.traceable, a1.helpers, kc.closure_reuse, kt.trace_fn, kt.wrapper, kt.find_top, kt.new_trace],
+            [a8_taint.traceable, a1.helpers, kc.closure_reuse, a5_factor.agree, kt.trace_fn, kt.wrapper, kt.find_top, kt.new_trace],
             "Closure under differentiation: no raw numpy call on a possibly traced operand inside a non-primitive rule body (A8), every helper primitive used at backward time "
             "has its own VJP and VSpace arithmetic has both rules (A1.helpers), backward closures are re-usable (A10).",
         ),
@@ -122,7 +122,7 @@ def _analyses():
             "compares type and structure fields, ComplexArrayVSpace overrides (A4.vspace), purity and mut_add(None, x) freshness (A9.pure).",
         ),
         "C14": (
-            [kc.zero_paths, a1.nograd, a1.sym, a1.none_rules, a1.methods, ka.arraybox_table, kt.wrapper, kt.notrace_wrapper, kt.trace_fn],
+            [kc.zero_paths, kc.closure_reuse, a1.nograd, a1.sym, a1.none_rules, a1.methods, ka.arraybox_table, kt.wrapper, kt.notrace_wrapper, kt.trace_fn],
             "Exact zeros: independent outputs give zeros of the right space and never None (A13.zero); everything declared non-differentiable is locally constant (A1.nograd/none/methods, "
             "facts about NumPy) for both node types (A1.sym); comparisons map to untraced functions, __bool__/shape/len read the raw value (A14); the notrace branch returns plain values.",
         ),
@@ -182,6 +182,32 @@ def _a9_scatter(ctx, world):
         ctx.ob("A9.scatter", "untake: onp.add.at(A, idx, x)", True, loc_of(m, fn))
     else:
         ctx.fail("A9.scatter", "untake:scatter", "autograd.numpy.numpy_vjps.untake:scatter", loc_of(m, bad or fn), f"untake's accumulator does not scatter with numpy.add.at(A, idx, x){' but with `' + norm_text(bad)[:50] + '`' if bad else ''}", "an integer-array index with repeated entries, x[[0, 0, 1]]: contributions of repeated positions are lost")
+    # the index that reaches the scatter denotes the positions the forward pass read: it is the parameter itself,
+    # or its top-level list -> int64 array normalisation (directly or through a helper whose every return is one
+    # of these two)
+    ps0 = [a.arg for a in fn.args.args]
+
+    def idx_expr_ok(v, pname, mod, depth=0):
+        if isinstance(v, ast.Name) and v.id == pname:
+            return True
+        if isinstance(v, ast.Call) and getattr(v.func, "attr", "") in ("array", "asarray") and v.args and isinstance(v.args[0], ast.Name) and v.args[0].id == pname:
+            return any(k.arg == "dtype" for k in v.keywords)
+        if isinstance(v, ast.IfExp):
+            return idx_expr_ok(v.body, pname, mod, depth) and idx_expr_ok(v.orelse, pname, mod, depth)
+        if isinstance(v, ast.Call) and isinstance(v.func, ast.Name) and depth < 2 and len(v.args) == 1 and isinstance(v.args[0], ast.Name) and v.args[0].id == pname:
+            r = world.repo.resolve(mod, v.func.id)
+            if r is not None and r.kind == "repo" and isinstance(r.node, ast.FunctionDef) and len(r.node.args.args) == 1:
+                hp = r.node.args.args[0].arg
+                rets_ = [x.value for x in ast.walk(r.node) if isinstance(x, ast.Return)]
+                return bool(rets_) and all(idx_expr_ok(x, hp, r.mod, depth + 1) for x in rets_)
+        return False
+
+    rebinds = [x for x in ast.walk(fn) if isinstance(x, ast.Assign) and any(isinstance(t, ast.Name) and t.id == ps0[1] for t in x.targets)]
+    bad_rb = [x for x in rebinds if not idx_expr_ok(x.value, ps0[1], m)]
+    if not bad_rb:
+        ctx.ob("A9.scatter", "untake: the scatter index is the forward index (top-level list -> int64 array only)", True, loc_of(m, fn))
+    else:
+        ctx.fail("A9.scatter", "untake:index", "autograd.numpy.numpy_vjps.untake:index-rewritten", loc_of(m, bad_rb[0]), f"untake rewrites the index before scattering: `{norm_text(bad_rb[0])[:70]}` - the backward pass may address other positions than the forward pass read", "an index whose meaning changes under the rewrite (a list of booleans inside a tuple index, nested lists)")
     # returns SparseObject(vs, mut_add)
     rets = [s for s in fn.body if isinstance(s, ast.Return)]
     ps = [a.arg for a in fn.args.args]
